@@ -80,12 +80,12 @@ func runC16(c *Ctx) {
 
 	pk := c.fn(ffl, "transaction", "putKey")
 	c.mustCallAll("G-overlay", "putKey", pk, map[string]func(*ssa.CallCommon) bool{
-		"pendingRemove.Delete(key)": treapCall("pendingRemove", "Delete"),
+		"pendingRemove.Delete(key)":  treapCall("pendingRemove", "Delete"),
 		"pendingKeys.Put(key,value)": treapCall("pendingKeys", "Put"),
 	})
 	dk := c.fn(ffl, "transaction", "deleteKey")
 	c.mustCallAll("G-overlay", "deleteKey", dk, map[string]func(*ssa.CallCommon) bool{
-		"pendingKeys.Delete(key)":   treapCall("pendingKeys", "Delete"),
+		"pendingKeys.Delete(key)":    treapCall("pendingKeys", "Delete"),
 		"pendingRemove.Put(key,nil)": treapCall("pendingRemove", "Put"),
 	})
 	for _, f := range []*ssa.Function{pk, dk} {
@@ -218,7 +218,10 @@ func runC16(c *Ctx) {
 		var seenPut, seenRem bool
 		for _, a := range ct.AnonFuncs {
 			names := map[string]bool{}
-			for _, call := range ssau.CallsIn(a, func(cm *ssa.CallCommon) bool { o := ssau.CalleeObj(cm); return o != nil && (o.Name() == "Put" || o.Name() == "Delete") }) {
+			for _, call := range ssau.CallsIn(a, func(cm *ssa.CallCommon) bool {
+				o := ssau.CalleeObj(cm)
+				return o != nil && (o.Name() == "Put" || o.Name() == "Delete")
+			}) {
 				recv := ""
 				if fv, ok := ssau.AddrRoot(ssau.Unwrap(call.Common().Args[0])).(*ssa.UnOp); ok {
 					if v, ok := fv.X.(*ssa.FreeVar); ok {
@@ -631,7 +634,10 @@ func runC18(c *Ctx) {
 	}
 	rb := c.fn(ffl, "blockStore", "readBlock")
 	if rb != nil {
-		crc := func(cm *ssa.CallCommon) bool { f := cm.StaticCallee(); return f != nil && f.String() == "hash/crc32.Checksum" }
+		crc := func(cm *ssa.CallCommon) bool {
+			f := cm.StaticCallee()
+			return f != nil && f.String() == "hash/crc32.Checksum"
+		}
 		c.GuardSuccess("G-checksum", "readBlock|checksum equality", rb, "stored checksum != crc32(data)", condCmp(func(v ssa.Value) bool { return ssau.IsCallTo(ssau.Unwrap(v), crc) }, func(v ssa.Value) bool { return methodCallNamed(ssau.Unwrap(v), "Uint32") }, token.EQL, true), G1Opt{})
 		c.GuardSuccess("G-checksum", "readBlock|network equality", rb, "stored network != s.network", condCmp(func(v ssa.Value) bool { return methodCallNamed(ssau.Unwrap(v), "Uint32") }, func(v ssa.Value) bool {
 			return ssau.DependsOn(v, func(x ssa.Value) bool { return ssau.IsFieldOf(x, "blockStore", "network") })
